@@ -37,6 +37,14 @@ def gen_case(rng, tier, i):
     from vlib.proggen import gen_program
     from vlib.refdevs import Ref, WARMUP
     nstop = 4 if tier == "quick" else 12
+    nrec = 9 if tier == "quick" else 45
+    if plan(tier)["cases"] - nstop - nrec <= i < plan(tier)["cases"] - nstop:
+        # a recurring, argument-less handler (a 'tick' that re-schedules itself) failing more than once: every failure is
+        # a failure of its own, however alike the reports look
+        j = i - (plan(tier)["cases"] - nstop - nrec)
+        clock = ["float", "duration", "int"][j % 3]
+        fails = [[2, 4], [1, 2], [3, 3 + 1 + j % 3], [2, 5, 6]][(j // 3) % 4]
+        return {"fam": "recurring", "clock": clock, "strategy": ["pause", "pause", "log", "warn"][(j // 3) % 4], "fails": fails}
     if i >= plan(tier)["cases"] - nstop:
         # a handler asks for a stop and then fails: under the continue strategies this is 'as if it had returned normally',
         # so the stop stands (each case costs the library's 1 s self-wait of stop() on the run thread)
@@ -145,9 +153,53 @@ def _stop_then_fail(case, ctx):
         h.cleanup()
 
 
+def _recurring(case, ctx):
+    from vlib.simharness import Harness, time_value
+    clock = case["clock"]
+    lit = (lambda v: [float(v), "s"]) if clock == "duration" else (lambda v: int(v) if clock == "int" else float(v))
+    prog = {"clock": clock, "rep": {"start": lit(0), "warmup": lit(0), "length": lit(20)}, "init": [], "handlers": {}, "strategy": case["strategy"]}
+    h = Harness(prog)
+    ticks = []
+
+    def tick(model):
+        sim = model.simulator
+        ticks.append(float(sim.simulator_time))
+        if len(ticks) < 8:
+            sim.schedule_event_rel(time_value(prog, lit(1)), model, "tick")
+        if len(ticks) in case["fails"]:
+            raise RuntimeError("tick failed")       # the same report every time
+    setattr(type(h.model), "tick", tick)
+    h.on_construct = lambda model: model.simulator.schedule_event_rel(time_value(prog, lit(1)), model, "tick")
+    where = {"clock": clock, "strategy": case["strategy"], "failing_occurrences": case["fails"]}
+    try:
+        if h.cmd("initialize") != "ok":
+            ctx.viol("initialize-raises", where)
+            return
+        ctx.count("recurring_handler_cases")
+        stops = sorted(set(case["fails"])) if case["strategy"] == "pause" else []
+        for want_n in stops + [8]:
+            if h.cmd("start") != "ok" or not h.wait_quiescent(30):
+                ctx.viol("hang:recurring", {**where, "snapshot": h.snapshot()})
+                return
+            snap = h.snapshot()
+            ended = want_n == 8 and (not stops or 8 not in stops)
+            if len(ticks) != want_n or (snap["run_state"] == "ENDED") != ended:
+                ctx.viol("segment-pause:event-executed-that-should-not" if len(ticks) > want_n else "segment-pause:event-lost",
+                         {**where, "executed_occurrences": len(ticks), "expected": want_n, "snapshot": snap})
+                return
+        if ticks != [float(k) for k in range(1, 9)]:
+            ctx.viol("whole-run:events-lost-or-repeated", {**where, "tick_times": ticks})
+            return
+        ctx.nontrivial = True
+    finally:
+        h.cleanup()
+
+
 def run_case(case, ctx):
     if case.get("fam") == "stop_then_fail":
         return _stop_then_fail(case, ctx)
+    if case.get("fam") == "recurring":
+        return _recurring(case, ctx)
     from vlib.simharness import Harness, compare_traces, check_clock_monotone
     from vlib.refdevs import Ref, WARMUP
     prog = _with_faults(case["prog"], case["faults"], case.get("switches", ()))
